@@ -708,7 +708,8 @@ def c17(tier, seed):
     for name, text in inputs.items():
         for check in (False, True):
             for respect in (False, True):
-                for path_kind in ("none", "plain", "ignored", "ignored-new-nested", "ignored-existing-nested", "ignored-new-abs", "plain-new-nested", "outside-cwd"):
+                for path_kind in ("none", "plain", "ignored", "ignored-new-nested", "ignored-existing-nested", "ignored-new-abs", "plain-new-nested", "outside-cwd",
+                                  "ignored-by-own-dir", "shadowed-by-own-dir", "intermediate-without-spd", "intermediate-with-spd"):
                     for fmtopt in ([], ["--quote-style", "ForceSingle"], ["--indent-type", "Spaces", "--indent-width", "3"], ["--line-endings", "Windows"], ["--verify"]):
                         if name == "big" and (check or fmtopt or respect):
                             continue
@@ -717,7 +718,9 @@ def c17(tier, seed):
                         if path_kind not in ("none", "plain", "ignored") and (fmtopt or name not in ("valid", "crlf", "no-trailing-newline", "invalid")):
                             continue
                         files = {"proj/other.lua": UNFORMATTED, "proj/.styluaignore": "ignored.lua\nbuild/\nnew-ignored.lua\n", "proj/ignored.lua": UNFORMATTED,
-                                 "proj/build/old.lua": UNFORMATTED, "proj/src/keep.lua": UNFORMATTED, "elsewhere/x.lua": UNFORMATTED}
+                                 "proj/build/old.lua": UNFORMATTED, "proj/src/keep.lua": UNFORMATTED, "elsewhere/x.lua": UNFORMATTED,
+                                 "proj/src/.styluaignore": "gen.lua\ndeep/\n", "proj/src/gen.lua": UNFORMATTED, "proj/src/ignored.lua": UNFORMATTED,
+                                 "proj/src/deep/mid/x.lua": UNFORMATTED}
                         with Tree(files) as t:
                             before = t.snapshot()
                             cwd = os.path.join(t.root, "proj")
@@ -725,7 +728,11 @@ def c17(tier, seed):
                             # the path need not exist (an unsaved editor buffer): what counts is what it is called
                             sp = {"plain": "other.lua", "ignored": "ignored.lua", "ignored-new-nested": "build/new.lua", "ignored-existing-nested": "build/old.lua",
                                   "ignored-new-abs": os.path.join(cwd, "new-ignored.lua"), "plain-new-nested": "src/new.lua",
-                                  "outside-cwd": os.path.join(t.root, "elsewhere", "x.lua")}.get(path_kind)
+                                  "outside-cwd": os.path.join(t.root, "elsewhere", "x.lua"),
+                                  "ignored-by-own-dir": "src/gen.lua", "shadowed-by-own-dir": "src/ignored.lua",
+                                  "intermediate-without-spd": "src/deep/mid/x.lua", "intermediate-with-spd": "src/deep/mid/x.lua"}.get(path_kind)
+                            if path_kind == "intermediate-with-spd":
+                                args += ["--search-parent-directories"]
                             if sp:
                                 args += ["--stdin-filepath", sp]
                             args.append("-")
@@ -741,7 +748,11 @@ def c17(tier, seed):
                                 cfgstr += " eol=Windows"
                             lib = _lib_format(text, cfgstr)
                             parses = not lib.startswith("<parse error>")
-                            skipped = respect and path_kind.startswith("ignored")
+                            # what the property asks (some .styluaignore on the way excludes the path) ...
+                            prop_ignored = path_kind.startswith("ignored") or path_kind in ("shadowed-by-own-dir", "intermediate-without-spd", "intermediate-with-spd")
+                            # ... and what consulting ONE ignore file gives (Model/Ignore.lean; D37 where they differ)
+                            impl_ignored = path_kind.startswith("ignored") or path_kind == "intermediate-with-spd"
+                            skipped = respect and prop_ignored
                             detail = {"argv": [a.replace(t.root, "<root>") for a in args], "stdin_filepath_kind": path_kind, "stdin": text if len(text) < 300 else "<%d bytes>" % len(text), "exit": rc, "stdout": out.decode("utf-8", "replace")[:300], "stderr": err.decode("utf-8", "replace")[:300]}
                             if {k_: v_[:3] for k_, v_ in before.items()} != {k_: v_[:3] for k_, v_ in after.items()}:
                                 V.append(v("C17", "stdin-mode-wrote-files", detail))
@@ -760,13 +771,21 @@ def c17(tier, seed):
                                     obs_kind = "input"
                                 else:
                                     obs_kind = "other"
+                            IGN = {"ignored": ("0.1.10", "0.1"), "ignored-new-nested": ("0.1.5.11", "0.1"), "ignored-existing-nested": ("0.1.5.12", "0.1"),
+                                   "ignored-new-abs": ("0.1.13", "0.1"), "plain": ("0.1.14", "-"), "plain-new-nested": ("0.1.2.15", "-"), "outside-cwd": ("0.6.16", "-"),
+                                   "ignored-by-own-dir": ("0.1.2.17", "0.1.2"), "shadowed-by-own-dir": ("0.1.2.10", "0.1"),
+                                   "intermediate-without-spd": ("0.1.2.3.4.16", "0.1.2"), "intermediate-with-spd": ("0.1.2.3.4.16", "0.1.2")}
+                            if respect and not check and parses and not same and path_kind in IGN and name == "valid" and not fmtopt:
+                                pth, ms = IGN[path_kind]
+                                Q.append(q("ignore repaired 0.1 %d %s 0.1,0.1.2 %s" % (path_kind == "intermediate-with-spd", pth, ms),
+                                           "ignored" if out == text.encode() else ("notIgnored" if out == lib.encode() else "other:%d" % rc)))
                             if name != "big":
-                                Q.append(q("stdin %d %d %d %d %d" % (check, respect, path_kind.startswith("ignored"), parses, same), "%s %d" % (obs_kind, rc)))
+                                Q.append(q("stdin %d %d %d %d %d" % (check, respect, impl_ignored, parses, same), "%s %d" % (obs_kind, rc)))
                             # ---- ring 3
                             if not check:
                                 if skipped:
                                     if out != text.encode() or rc != 0:
-                                        V.append(v("C17", "ignored-stdin-path-not-passed-through", detail))
+                                        V.append(v("C17", "ignored-stdin-path-not-passed-through" + ("" if impl_ignored else ":another-ignore-file-consulted"), detail))
                                 elif not parses:
                                     if out != b"" or rc != 2:
                                         V.append(v("C17", "parse-error:stdout-or-exit", detail))
@@ -1041,6 +1060,9 @@ def c16(tier, seed):
         (mk({"proj/src/main.lua", "proj/src/util.lua", "proj/src/gen/out.lua"}), {"proj": ["gen/", "util.lua"]}, ["proj/src"], False, False, []),
         (mk({"gen.gen.lua", "keep.gen.lua", "a.lua"}), {"": ["*.gen.lua", "!keep.gen.lua"]}, ["."], False, False, []),
         (mk({"src/.hid/x.lua", ".hidden.lua", "a.lua"}), {}, ["."], False, True, []),
+        # D37: src/.styluaignore (which does not mention it) shadows the root file that excludes main.lua
+        (mk({"src/main.lua", "src/util.lua"}), {"": ["main.lua"], "src": ["notes.txt"]}, ["src/main.lua", "."], True, False, []),
+        (mk({"src/main.lua", "src/util.lua"}), {"": ["main.lua"]}, ["src/main.lua", "."], True, False, []),
     ]
     for case in range(n + len(fixed)):
       if case < len(fixed):
@@ -1130,9 +1152,30 @@ def c16(tier, seed):
                         if pats and _ignore_decision(pats, parts[i], i < len(parts) - 1) == "ignore":
                             excluded = True
                 if excluded and _ignore_decision([x for d_, ps in ignore_files.items() for x in ps], name, False) != "whitelist":
-                    V.append(v("C16", "styluaignored-file-processed" + (":glob-given" if globs else "") + (":explicit-respect" if explicit_arg else ""), dict(detail, file=p)))
+                    # for an explicit path only ONE ignore file is consulted (the nearest); when that one does not
+                    # exclude the file but a farther one does, the file is formatted (D37)
+                    shadowed = explicit_arg and not _stylua_ignored_single(p, ignore_files)
+                    V.append(v("C16", "styluaignored-file-processed" + (":glob-given" if globs else "") + (":explicit-respect" if explicit_arg else "") + (":shadowed-by-nearer-ignore-file" if shadowed else ""), dict(detail, file=p)))
                 if not globs and not (name.endswith(".lua") or name.endswith(".luau")):
                     V.append(v("C16", "non-lua-file-processed", dict(detail, file=p)))
+            # ---- ring 2 (Model/Ignore.lean): which ignore file answers for an explicit path under --respect-ignores
+            if respect and not globs:
+                ids = {}
+                def comp(path):
+                    return ".".join(["0"] + [str(ids.setdefault(x, len(ids) + 1)) for x in path.split("/") if x]) if path else "0"
+                for a in args:
+                    r = os.path.normpath(a)
+                    if r in files and (r.endswith(".lua") or r.endswith(".luau")):
+                        dirs = sorted(ignore_files)
+                        ms = []
+                        for d in dirs:
+                            if d == "" or r.startswith(d + "/"):
+                                rel = r[len(d) + 1:] if d else r
+                                parts_ = rel.split("/")
+                                if any(_ignore_decision(ignore_files[d], parts_[i], i < len(parts_) - 1) == "ignore" for i in range(len(parts_))):
+                                    ms.append(d)
+                        Q.append(q("ignore repaired 0 0 %s %s %s" % (comp(r), ",".join(comp(d) for d in dirs) or "-", ",".join(comp(d) for d in ms) or "-"),
+                                   "notIgnored" if r in counts else "ignored"))
             for a in args:
                 r = os.path.normpath(a)
                 if r in files and not respect and r not in counts:
